@@ -50,7 +50,7 @@ def run(eng, tier):
              ('size>=1', ('val', LT(M(v, 'size'), I(1)), False))] + [('id-canonical', f) for f in canonical_id_facts(M(v, 'id'))]
         for name, f in g:
             pos = p.pos(f)
-            eng.ob(pos is not None and pos < sp, PROP, 'guard', '%s:%s' % (v, name), 'ApproveAsk: approval recorded on a path that does not establish %s: %s' % (name, fact_key(f)), detail=p.describe(20),
+            eng.ob(pos is not None and pos < sp, PROP, 'guard', '%s:%s' % (v, name), 'ApproveAsk: approval recorded on a path that does not establish %s: %s' % (name, fact_key(f)), where=p, detail=p.describe(20),
                    sample={'rule': 'guard', 'condition': name})
         funds_rule(eng, p, v, M(v, 'base'), M(v, 'size'), dom, sp, PROP)   # reports under this property's id via eng (rule names funds-*)
         want_cls = ('adt', 'ask_order::AskOrderClass', 'Convertible', (('status', ('adt', 'ask_order::AskOrderStatus', 'Ready', (('approver', SENDER),
@@ -106,7 +106,7 @@ def run(eng, tier):
     for p in eng.paths('execute', 'ok', 'ExecuteMatch'):
         A = ask_of('ExecuteMatch')
         stt = class_state(p, F(A, 'class'))
-        eng.ob(stt in ('Basic', 'Ready'), PROP, 'pending-not-matched', 'ExecuteMatch', 'a match succeeds on an ask whose approval state is %s' % stt, detail=p.describe(12))
+        eng.ob(stt in ('Basic', 'Ready'), PROP, 'pending-not-matched', 'ExecuteMatch', 'a match succeeds on an ask whose approval state is %s' % stt, where=p, detail=p.describe(12))
     # converse
     refs = Refusals(eng, 'execute')
     def isf(e, f): return e['fact'] == f
